@@ -1,7 +1,8 @@
 --------------------------- MODULE ModelContractMC ---------------------------
 (* Design-level check of the wrapper on every short integer abscissa.        *)
 EXTENDS ModelContract
-Names == {"pointwise", "prefix_sum", "index_weighted", "running_max"}
+Names == {"pointwise", "prefix_sum", "index_weighted", "running_max",
+          "pointwise_kwonly", "pointwise_memo"}
 Xs == UNION {[1..n -> -2..2] : n \in 1..4}
 VARIABLES name, x, cp
 Init == name \in Names /\ x \in Xs /\ cp \in {-1, 0, 1}
